@@ -398,7 +398,39 @@ def rule_d5(ctx) -> None:
         ctx.finding("C08-D5", "SyntheticRuleMatcher.__init__:normalisation", init.loc(norm[0]), "the imbalance is normalised with %s; entries other than zeros can be dropped" % [unparse(c) for c in norm[0].value.generators[0].ifs])
 
 
+def rule_d7(ctx) -> None:
+    """A both-sided imbalance with one element and a charge is re-labelled one-sided by swapping the side it is seen
+    from.  Swapping sides negates the *whole* difference vector, the charge entry included; the solver then fills exactly
+    that vector.  Every return of the relabelling helper is either the vector it received or its complete negation."""
+    ctx.rule("C08-D7", "where a both-sided imbalance is re-labelled, the returned vector is the given one or its complete negation", 2)
+    f = ctx.prog.func("synrbl.SynProcessor.rsmi_both_side_process.BothSideReact.reverse_values_if_negative_except_Q")
+    param = [p for p in f.params if p not in ("self", "cls")][0]
+    rets = [r for r in own_nodes(f.node) if isinstance(r, ast.Return) and isinstance(r.value, ast.Tuple) and len(r.value.elts) == 2]
+    ctx.require(len(rets) >= 2, "the relabelling helper no longer returns (vector, label) pairs")
+    for r in rets:
+        v = r.value.elts[0]
+        if isinstance(v, ast.Name) and v.id != param:
+            defs = assignments_to(f, v.id)
+            if len(defs) == 1 and defs[0][2] is None:
+                v = defs[0][1]
+        kind = None
+        if isinstance(v, ast.Name) and v.id == param:
+            kind = "unchanged"
+        elif isinstance(v, ast.DictComp) and len(v.generators) == 1 and not v.generators[0].ifs and isinstance(v.generators[0].target, ast.Tuple) and len(v.generators[0].target.elts) == 2:
+            g = v.generators[0]
+            k_, v_ = g.target.elts
+            over = isinstance(g.iter, ast.Call) and isinstance(g.iter.func, ast.Attribute) and g.iter.func.attr == "items" and unparse(g.iter.func.value) == param
+            keeps_key = isinstance(v.key, ast.Name) and isinstance(k_, ast.Name) and v.key.id == k_.id
+            negates = isinstance(v.value, ast.UnaryOp) and isinstance(v.value.op, ast.USub) and isinstance(v.value.operand, ast.Name) and isinstance(v_, ast.Name) and v.value.operand.id == v_.id
+            if over and keeps_key and negates:
+                kind = "complete negation"
+        ctx.instance("C08-D7", "return %s: %s" % (unparse(r.value)[:70], kind or "neither the given vector nor its complete negation"), f.loc(r), ok=kind is not None)
+        if kind is None:
+            ctx.finding("C08-D7", "BothSideReact.reverse_values_if_negative_except_Q:partial-negation", f.loc(r), "the relabelled imbalance %s is neither the given vector nor its complete negation: an entry (the charge) keeps its sign when the side is swapped, so the solver fills a vector that is not the imbalance of the reaction" % unparse(v)[:70])
+
+
 def check(ctx) -> None:
+    rule_d7(ctx)
     # D6: the completion computed for an imbalance is attached to the reaction the imbalance was computed for: the
     # lists joined by position in the rule-based stage derive from the same rows without a filter in between
     # (shared with C06-B3)
